@@ -60,6 +60,63 @@ Proof.
       rewrite (proj2 (IH (concat parts')) (ex_intro _ parts' (conj HF' eq_refl))). reflexivity.
 Qed.
 
+Lemma Forall2_in_r {A B} (R : A -> B -> Prop) la lb b : Forall2 R la lb -> In b lb -> exists a, In a la /\ R a b.
+Proof.
+  induction 1 as [|x y la lb HR HF IH]; intros Hin; [destruct Hin|].
+  destruct Hin as [<-|Hin]; [exists x; split; [left; reflexivity|exact HR]|].
+  destruct (IH Hin) as [a [Ha HRa]]. exists a. split; [right; exact Ha|exact HRa].
+Qed.
+Lemma Forall2_in_l {A B} (R : A -> B -> Prop) la lb a : Forall2 R la lb -> In a la -> exists b, In b lb /\ R a b.
+Proof.
+  induction 1 as [|x y la lb HR HF IH]; intros Hin; [destruct Hin|].
+  destruct Hin as [<-|Hin]; [exists y; split; [left; reflexivity|exact HR]|].
+  destruct (IH Hin) as [b [Hb HRb]]. exists b. split; [right; exact Hb|exact HRb].
+Qed.
+
+(* which rows an INNER / LEFT JOIN LATERAL holds, as a relational statement: the pairs of a left row and a row
+   of the derived table evaluated for that left row on which the condition is TRUE, and (LEFT) every left row
+   without such a partner once, padded with NULLs *)
+Theorem lateral_rows_membership (p : row -> bool) cond (v : row -> val) :
+  (forall x, p x = is_true (v x)) ->
+  forall k lw rw (sub : row -> res (list row)) ls out,
+  k = JInner \/ k = JLeft ->
+  (forall l rs r, In l ls -> sub l = Ok rs -> In r rs -> eval (l ++ r) cond = Ok (v (l ++ r))) ->
+  lateral_rows k (Some cond) lw rw sub ls = Ok out ->
+  forall x, In x out <->
+    (exists l rs r, In l ls /\ sub l = Ok rs /\ In r rs /\ p (l ++ r) = true /\ x = l ++ r) \/
+    (k = JLeft /\ exists l rs, In l ls /\ sub l = Ok rs /\ (forall r, In r rs -> p (l ++ r) = false) /\ x = l ++ nulls rw).
+Proof.
+  intros Hp k lw rw sub ls out Hk Htot H x.
+  apply lateral_rows_spec in H. destruct H as [parts [HF ->]].
+  assert (Hpart : forall l rs part, In l ls -> sub l = Ok rs -> join_rows k (Some cond) lw rw [l] rs = Ok part ->
+            part = match k with JInner => inner_spec p [l] rs | _ => left_spec p rw [l] rs end).
+  { intros l rs part Hl Hs Hj.
+    rewrite (join_rows_spec p cond v Hp k lw rw [l] rs) in Hj.
+    - destruct Hk as [-> | ->]; injection Hj as <-; reflexivity.
+    - intros l' r' [E|[]] Hr'. subst l'. exact (Htot l rs r' Hl Hs Hr'). }
+  rewrite in_concat. split.
+  - intros [part [Hin Hx]].
+    destruct (Forall2_in_r _ _ _ _ HF Hin) as [l [Hl [rs [Hs Hj]]]].
+    rewrite (Hpart l rs part Hl Hs Hj) in Hx.
+    destruct Hk as [-> | ->].
+    + apply in_inner_spec in Hx. destruct Hx as [l' [r [[E|[]] [Hr [Hpr ->]]]]]. subst l'.
+      left. exists l, rs, r. auto.
+    + apply in_left_spec in Hx. destruct Hx as [Hx | [l' [[E|[]] [Hn ->]]]].
+      * apply in_inner_spec in Hx. destruct Hx as [l' [r [[E|[]] [Hr [Hpr ->]]]]]. subst l'. left. exists l, rs, r. auto.
+      * subst l'. right. split; [reflexivity|]. exists l, rs. auto.
+  - intros [[l [rs [r [Hl [Hs [Hr [Hpr ->]]]]]]] | [-> [l [rs [Hl [Hs [Hn ->]]]]]]].
+    + destruct (Forall2_in_l _ _ _ _ HF Hl) as [part [Hin [rs' [Hs' Hj]]]].
+      rewrite Hs in Hs'. injection Hs' as <-.
+      exists part. split; [exact Hin|]. rewrite (Hpart l rs part Hl Hs Hj).
+      destruct Hk as [-> | ->].
+      * apply in_inner_spec. exists l, r. repeat split; auto. left; reflexivity.
+      * apply in_left_spec. left. apply in_inner_spec. exists l, r. repeat split; auto. left; reflexivity.
+    + destruct (Forall2_in_l _ _ _ _ HF Hl) as [part [Hin [rs' [Hs' Hj]]]].
+      rewrite Hs in Hs'. injection Hs' as <-.
+      exists part. split; [exact Hin|]. rewrite (Hpart l rs part Hl Hs Hj).
+      apply in_left_spec. right. exists l. repeat split; auto. left; reflexivity.
+Qed.
+
 (* an error of the derived table or of the ON condition for any left row is an error of the join *)
 Theorem lateral_rows_error k cond lw rw sub ls l e :
   In l ls -> sub l = Err e -> exists e', lateral_rows k cond lw rw sub ls = Err e'.
